@@ -488,7 +488,6 @@ func (m *Mint) MintTokens(mintTokensRequest nut04.PostMintBolt11Request) (cashu.
 			}
 
 			// mark quote as issued after signing the blinded messages
-			mintQuote.State = nut04.Issued
 			if err := m.db.UpdateMintQuoteState(mintQuote.Id, nut04.Issued); err != nil {
 				errmsg := fmt.Sprintf("error updating mint quote state: %v", err)
 				return cashu.BuildCashuError(errmsg, cashu.DBErrCode)
@@ -497,6 +496,8 @@ func (m *Mint) MintTokens(mintTokensRequest nut04.PostMintBolt11Request) (cashu.
 				errmsg := fmt.Sprintf("error saving blind signatures: %v", err)
 				return cashu.BuildCashuError(errmsg, cashu.DBErrCode)
 			}
+			// only now: if one of the writes above fails the quote goes back to the state it had
+			mintQuote.State = nut04.Issued
 
 			jsonQuote, _ := json.Marshal(mintQuote)
 			m.publisher.Publish(BOLT11_MINT_QUOTE_TOPIC, jsonQuote)
